@@ -6,7 +6,8 @@
    Modelled with the repairs fixes/c01-tt4-nlen-update-truncated.diff (NLEN written in a loop),
    fixes/c01-tt4-short-apdu-limits.diff (MLe/MLc clamped to 256/255 without extended length
    support) and fixes/c01-tt4-capacity-offset-range.diff (capacity clamped to the 16 bit offset
-   range).  Definitions only. *)
+   range), and with the C08 repairs fixes/c08-04..06 (READ BINARY without data / with excess data,
+   NLEN beyond the capacity).  Definitions only. *)
 From Coq Require Import ZArith List Bool.
 From NV Require Import Base.Result Base.Bytes Base.PyPrims Proofs.Chunks Model.T3T.
 Import ListNotations.
@@ -125,8 +126,12 @@ Definition select_fid (c : card) (p2 : Z) (fid : list Z) : res bool * card :=
   | (Err _, c1) => (Ok false, c1)
   | (Crash x, c1) => (Crash x, c1) | (Hang, c1) => (Hang, c1)
   end.
+(* a response longer than requested is a protocol error (fixes/c08-05) *)
 Definition read_binary (c : card) (max_le off size : Z) : res (list Z) * card :=
-  t4_send c (RdBin off (Z.min max_le size)).
+  match t4_send c (RdBin off (Z.min max_le size)) with
+  | (Ok d, c1) => if len d >? Z.max (Z.min max_le size) 0 then (Err (TagCommandError (-2)), c1) else (Ok d, c1)
+  | r => r
+  end.
 
 (* _discover_ndef: Ok (Some info) | Ok None (returns False) | Err (escapes to _read_ndef_data) *)
 Definition discover (c : card) : res (option ccinfo) * card :=
@@ -154,7 +159,9 @@ Fixpoint rd_file (fuel : nat) (c : card) (i : ccinfo) (nlen : Z) (acc : list Z) 
     | O => (Hang, c)
     | S f =>
       lift (read_binary c (i_mle i) (i_nlen i + len acc) (nlen - len acc)) (fun d c1 =>
-        if len d =? 0 then (Hang, c1) else rd_file f c1 i nlen (acc ++ d))
+        (* no data: _read_ndef_data returns None (fixes/c08-04); rendered as the command error that
+           read_with turns into "no NDEF" *)
+        if len d =? 0 then (Err (TagCommandError 0), c1) else rd_file f c1 i nlen (acc ++ d))
     end
   else (Ok acc, c).
 
@@ -164,6 +171,7 @@ Definition read_with (c : card) (i : ccinfo) : res fresh * card :=
   | (Ok true, c1) =>
     match lift (read_binary c1 (i_mle i) 0 (i_nlen i)) (fun nl c2 =>
             if negb (len nl =? i_nlen i) then (Ok None, c2) else
+            if be nl >? i_cap i then (Ok None, c2) else                (* fixes/c08-06: NLEN beyond the capacity *)
             match rd_file (Z.to_nat (Z.min (be nl) 65536 + 1)) c2 i (be nl) [] with
             | (Ok d, c3) => (Ok (Some d), c3)
             | (Err e, c3) => (Err e, c3) | (Crash x, c3) => (Crash x, c3) | (Hang, c3) => (Hang, c3)
